@@ -104,8 +104,8 @@ def e2e(idx: int, y: int) -> bool:
     pre: LO <= idx < HI and 0 <= y <= YMAX
     post: _
     """
-    idx = xs.R(idx)
-    y = xs.R(y)
+    idx = xs.pick(idx, LO, HI)
+    y = xs.pick(y, 0, YMAX + 1)
     with xs.nt():
         expr, valid, _w = cases()[idx]
         env.install_parser_proxies()
